@@ -66,6 +66,9 @@ def generate(seed, tier="quick"):
                     barrier=round(x0 * (r.uniform(1.02, 1.12) if bt.startswith("UP") else r.uniform(0.88, 0.98)), 4))
     if kind == "cds":
         spec.update(default_level=r.choice([-0.05, -0.1]), recovery=0.4, spread=0.01)
+    if kind in ("cds", "ntd", "cdsk"):
+        # construction history: another CDS of the same maturity on ANOTHER discount curve is built (and dropped) first
+        spec["decoy_cds"] = r.random() < 0.4
     if kind == "multi":
         d = r.choice([2, 3])
         spec.update(names=d, sub=r.choice(["logspot", "performances_rainbow", "max_performances", "mean", "nthspot", "indicators",
@@ -90,7 +93,9 @@ def generate(seed, tier="quick"):
         eng = r.choice(["standard", "standard", "mlmc"])
         rep = "LOG" if kind in ("cds", "ntd", "cdsk") else ("IDENTITY" if kind == "rates" else r.choice(["LOG", "IDENTITY"]))
         runs.append({"engine": eng, "rep": rep, "nproc": r.choice([1, 1, 2, 4]), "n": r.choice([2, 3, 5, 9, 20]),
-                     "max_level": r.choice([1, 2])})
+                     "max_level": r.choice([1, 2]),
+                     # the engine's option to keep statistics of the spot itself next to those of the payoff
+                     "spot_stats": eng == "standard" and kind not in ("multi", "rates", "ntd", "cdsk") and r.random() < 0.3})
     if nruns >= 2 and kind in ("call", "put", "forward", "digital_call", "digital_put", "callspread", "butterfly") and r.random() < 0.35:
         # a SECOND product built on the SAME underlying object (as a book of options on one underlying is): some runs of
         # the session price the sibling instead, the first of them possibly in the identity representation after a
@@ -205,6 +210,11 @@ def execute(wd, sc):
     times = np.linspace(0.0, T, m)
     model_for_cds = stubs.StubModel(df_value=1.0)
     model_for_cds.df = lambda t: float(np.exp(-0.03 * t))
+    if spec.get("decoy_cds"):
+        from rpylib.product.payoff import CDS as _CDS0
+
+        _CDS0(recovery_rate=0.25, spread=0.02, maturity=T, discounting=lambda t: float(np.exp(-0.07 * t)))
+        wd.probes["c17.another_cds_built_first"] += 1
     if spec["kind"] == "asian":
         from rpylib.product.payoff import Vanilla, PayoffType
         from rpylib.product.product import Product
@@ -338,7 +348,10 @@ def execute(wd, sc):
         try:
             if run["engine"] == "standard":
                 proc = stubs.ScriptedPathProcess(base, times, log, df_value=df, drift=drift)
-                cfg = ConfigurationStandard(mc_paths=n, nb_of_processes=run["nproc"], control_variates=cv_shared)
+                cfg = ConfigurationStandard(mc_paths=n, nb_of_processes=run["nproc"], control_variates=cv_shared,
+                                            activate_spot_statistics=bool(run.get("spot_stats")))
+                if run.get("spot_stats"):
+                    wd.probes["c17.spot_statistics_active"] += 1
                 if cv_shared is not None:
                     wd.probes["c17.shared_control_variates"] += 1
                 stats = StdEngine(cfg, proc).price(prod_run)
@@ -458,6 +471,15 @@ def execute(wd, sc):
                         if np.isfinite(uv):
                             wd.probes["c17.default_happened"] += 1
                         events.append(bool(np.isfinite(uv)))
+                        # the value from the product's OWN terms (recovery, spread, maturity, its discount curve)
+                        dfc = model_for_cds.df
+                        r_ = -np.log(dfc(1.0))
+                        dleg = 0.0 if uv > T else (1.0 - spec["recovery"]) * dfc(uv)
+                        fleg = spec["spread"] * (1.0 - dfc(min(T, uv))) / r_
+                        own = spec["notional"] * (dleg - fleg) / dfc(T) * df
+                        if not np.isclose(exp, own, rtol=1e-10, atol=1e-12):
+                            add(f"C17.history|value of a credit product is not the value given by its own terms|{'after-another-CDS-of-the-same-maturity-was-built' if spec.get('decoy_cds') else 'no-other-CDS-built'}",
+                                {"value": exp, "from_own_terms": float(own), "default_time": float(uv)})
                     elif ev is not None:
                         events.append(bool(ev))
                     if not np.isclose(got, exp, rtol=1e-12, atol=1e-12 * (1 + abs(exp)), equal_nan=True):
